@@ -157,6 +157,15 @@ Section Keys.
     split; [exact F|]. apply equal_iff_key. unfold Model.key. now rewrite F.
   Qed.
 
+  (* the letter case of the ASCII letters of a domain - of an ACE prefix too - does not matter *)
+  Lemma dns_for_lookup_ascii_case d d' :
+    (forall s, lower (ascii_lower s) = lower s) ->
+    ascii_lower d = ascii_lower d' -> dns_for_lookup d = dns_for_lookup d'.
+  Proof.
+    intros Hl E. unfold Model.dns_for_lookup. rewrite E.
+    destruct (to_unicode (ascii_lower d')); [reflexivity|]. rewrite <- (Hl d), <- (Hl d'), E. reflexivity.
+  Qed.
+
   Section Idempotence.
     (* what is assumed of the Unicode / IDNA library; tested against the real library by the
        correspondence run on the property's alphabet, not proved *)
@@ -164,7 +173,7 @@ Section Keys.
     Hypothesis lower_nfc_idem : forall s, lower (nfc (lower (nfc s))) = lower (nfc s).
     Hypothesis lower_nfc_nonempty : forall s, s <> [] -> lower (nfc s) <> [].
     Hypothesis good_domain_canonical :
-      forall d, good d = true -> exists u, to_unicode d = Some u /\
+      forall d, good d = true -> exists u, to_unicode (ascii_lower d) = Some u /\
         let k := trim_dot (lower (nfc u)) in
         k <> [] /\ ~ In AT k /\ dns_for_lookup k = (k, true).
 
